@@ -123,7 +123,7 @@ typedef char const* (*tTokenTextFnc)(unsigned TokenNum, void* pUser);
 
 extern void ExpandLineTokens(struct as_dynstr* p_str, tTokenTextFnc GetText, void* pUser);
 
-extern void KillCtrl(char* Line);
+extern void KillCtrl(as_dynstr_t* p_line);
 
 extern void AddCopyright(char const* NewLine);
 
